@@ -11,7 +11,7 @@ from impl import trees, treeanalysis, treeoutput, grammar, grammaranalysis, tran
 from props.c04 import HEADS
 
 ID = "C16"
-MODULE = ['TT.Props.C16', 'TT.Props.C16More', 'TT.Props.C16Tags', 'TT.Props.C16Total', 'TT.Props.C16Run', 'TT.Props.C16Stats', 'TT.Props.C16Src']
+MODULE = ['TT.Props.C16', 'TT.Props.C16More', 'TT.Props.C16Tags', 'TT.Props.C16Total', 'TT.Props.C16Run', 'TT.Props.C16Stats', 'TT.Props.C16Src', 'TT.Props.C16Run2']
 RULE = ("every node of all shapes up to 4/5 tokens and of random trees with gap degree 0..n/2 (gaps at several levels, "
         "unary nodes): terminal_blocks, gap_degree_node, gap_degree; agreement of gap degree > 0 with the bracket "
         "writer's refusal and with non-context-freeness of the extracted grammar; disco_order in both modes on "
